@@ -130,6 +130,14 @@ def check_query(conv, model, u, fails, where):
     gotc = conv.compress(u)
     if gotc != expc:
         fails.append(("C01/compress-differs", f"{where}: compress({u!r}) = {gotc!r}, expected {expc!r}"))
+    if exp is not None:
+        # the strict entry points join with the converter's delimiter too
+        try:
+            gs, gss = conv.compress(u, strict=True), conv.compress_strict(u)
+        except Exception as e:  # noqa
+            gs = gss = f"raised {type(e).__name__}"
+        if gs != expc or gss != expc:
+            fails.append(("C01/strict-compress-differs", f"{where}: compress({u!r}, strict=True) = {gs!r}, compress_strict = {gss!r}, expected {expc!r}"))
     if conv.is_uri(u) != (exp is not None):
         fails.append(("C01/is_uri-differs", f"{where}: is_uri({u!r}) = {conv.is_uri(u)!r}, expected {exp is not None}"))
 
